@@ -121,6 +121,15 @@ def total_cases(rng, tier):
                 first = _frame(rng.choice([0o4444, 0o5, 0o21]), rng.choice([0o100, addr]), rng.randrange(65536), typ, rng.randint(0, 255),
                                bytes(rng.randrange(256) for _ in range(rng.choice([0, 1, 2]))))
                 second = _frame(rng.choice(INVALID_ADDRS + [0o5]), rng.choice(INVALID_ADDRS + [addr]), rng.randrange(65536), rng.randrange(256), rng.randrange(256), b"")
+                if rng.random() < 0.4:
+                    # addresses that differ from one the node has just seen as valid only above bit 11 (a five-digit address
+                    # whose four low digits are a real node): invalid all the same
+                    hi = rng.randint(1, 15) << 12
+                    fb = bytes.fromhex(first)
+                    f_from, f_to = fb[0] | fb[1] << 8, fb[2] | fb[3] << 8
+                    second = _frame(rng.choice([f_from | hi, f_from, 0o5 | hi]), rng.choice([f_to | hi, addr | hi, f_to]),
+                                    rng.randrange(65536), rng.choice([0, 1, 65, 127, typ]), rng.randrange(256),
+                                    bytes(rng.randrange(256) for _ in range(rng.choice([0, 2, 8]))))
                 frames.append([(rng.randint(0, 5), first), (rng.randint(0, 5), second)])
             cs.append((total_session(rng, kind, arg, frames), f"handled-then-discarded-{kind}"))
     # the master waits for a NETWORK_ACK (address response routed via an existing child that acknowledges at
